@@ -30,9 +30,9 @@
                           (bitwise-ior open/write open/create open/exclusive)
                           mode)))
             (if (not fd)
-                (if (file-exists? path) ;; created between test and open
-                    (lp (+ i 1))
-                    (error "Couldn't generate temp file in /tmp " path))
+                ;; created between test and open (and possibly already
+                ;; deleted again by its owner): try the next name
+                (lp (+ i 1))
                 (let* ((out (open-output-file-descriptor fd))
                        (preserve? #f)
                        (res (proc path out (lambda () (set! preserve? #t)))))
@@ -72,4 +72,6 @@
                 (delete-file-hierarchy path))
             res))
          (else
-          (error "failed to create directory" path)))))))
+          ;; created between test and mkdir by another process, thread
+          ;; or context: try the next name
+          (lp (+ i 1))))))))
